@@ -57,7 +57,7 @@ type jobOut struct {
 
 // a failing execution may cost the hang detector's wait; a tree that is broken for a whole class of URLs
 // would otherwise keep the check busy for hours
-const maxFailsPerJob = 12
+const maxFailsPerJob = 5
 
 func outcomeKey(c e2eCase, r e2eResult) string {
 	k := fmt.Sprintf("%s n=%d: %s", c.Flow, c.N, strings.Join(r.Shapes, " | "))
